@@ -297,14 +297,22 @@ async fn acquire_authority_lock_with_recovery(
     let deadline = std::time::Instant::now() + std::time::Duration::from_secs(2);
 
     loop {
+        #[cfg(rip_verif)]
+        rip_kernel::verif::point("auth.loop.top", || serde_json::json!({}));
         match AuthorityLockGuard::try_acquire(data_dir, workspace_root) {
             Ok(lock) => return Ok(lock),
             Err(err) => {
+                #[cfg(rip_verif)]
+                rip_kernel::verif::point("auth.rec.enter", || serde_json::json!({}));
                 let meta = crate::read_authority_meta(data_dir).unwrap_or(None);
                 let endpoint_reachable = match &meta {
                     Some(meta) => ping_openapi(client, &meta.endpoint).await,
                     None => false,
                 };
+                #[cfg(rip_verif)]
+                rip_kernel::verif::point("auth.rec.meta", || {
+                    serde_json::json!({"has_meta": meta.is_some(), "reachable": endpoint_reachable})
+                });
                 if endpoint_reachable {
                     let Some(meta) = &meta else {
                         return Err(err);
@@ -315,7 +323,12 @@ async fn acquire_authority_lock_with_recovery(
                     ));
                 }
 
-                match crate::read_authority_lock_record(data_dir) {
+                let lock_read = crate::read_authority_lock_record(data_dir);
+                #[cfg(rip_verif)]
+                rip_kernel::verif::point("auth.rec.lock", || {
+                    serde_json::json!({"state": match &lock_read { Ok(Some(_)) => "ok", Ok(None) => "none", Err(_) => "invalid" }})
+                });
+                match lock_read {
                     Ok(Some(lock)) => {
                         lock_invalid_since = None;
                         if lock.workspace_root != workspace_root_str {
